@@ -408,6 +408,32 @@ theorem hash_is_not_a_function_of_eq :
     (fun s => match s with | .tag _ [.str c _] => [c] | _ => []), (fun s => s.headD 0), by decide +kernel, ?_⟩
   simp [hashImpl, shape, shapeL]
 
+/-! ### pickling a document -/
+
+/-- **Every generation is the re-parse of the current tree**: whatever happened to a document before — parsed, unpickled
+    (so that it still holds the markup it was rebuilt from), edited, unpickled and edited again … — its pickle round trip
+    is `feed (decode tree)` of the tree *as it is when it is pickled*; the left-over `markup` plays no role. With C05's
+    `feed ∘ decode = normalise` this is "equal to the original up to the re-parse normalisations", for all histories. -/
+theorem pickle_generation {T : Type} (decode : T → PStr) (feed : PStr → T) (d : PDoc T) (h : List (PStep T)) :
+    (pickleRoundTrip decode feed (pRun decode feed d h)).tree = feed (decode (pRun decode feed d h).tree) := rfl
+
+/-- in particular: unpickle, edit, pickle again — the second generation contains the edit -/
+theorem pickle_edit_pickle {T : Type} (decode : T → PStr) (feed : PStr → T) (d : PDoc T) (f : T → T) :
+    (pRun decode feed d [.pickle, .edit f, .pickle]).tree = feed (decode (f (feed (decode d.tree)))) := rfl
+
+/-- what the seeded `__getstate__` (re-using a left-over `markup`) would do instead: the second generation is the first
+    one again, the edit is lost. (Strings as documents, `feed = decode = id`, edit = append a character.) -/
+example : getStateStale (T := PStr) id (⟨ofS "ab", none⟩ : PDoc PStr) = ofS "ab" ∧
+    getStateStale (T := PStr) id { (pickleRoundTrip id id (⟨ofS "ab", none⟩ : PDoc PStr)) with tree := ofS "abc" } = ofS "ab" ∧
+    getState (T := PStr) id { (pickleRoundTrip id id (⟨ofS "ab", none⟩ : PDoc PStr)) with tree := ofS "abc" } = ofS "abc" := by
+  decide +kernel
+
+/-- the model's reading of `__getstate__`/`__setstate__`, from the live source: the only statement of `__getstate__` that
+    touches `markup` is the unconditional `d['markup'] = self.decode()`; `__setstate__` rebuilds with `reset()` + `_feed()` -/
+theorem pickle_source :
+    BS.Gen.Copy.getstateMarkup = [ofS "d['markup'] = self.decode()"] ∧
+    BS.Gen.Copy.setstateCalls = [ofS "self.reset()", ofS "self._feed()"] := by decide +kernel
+
 /-! ### the model's reading of `copy_self`, pinned to the live source -/
 
 /-- `Tag.copy_self` passes, for **every** parameter of `Tag.__init__` other than `parent`/`previous`, either `None`
